@@ -271,11 +271,13 @@ pub struct GenCfg {
     pub max_commits: usize,
     /// target for the size-biased tail (0 = off): extra AllocMul/Mul ops up to this many gates
     pub big_gates: usize,
+    /// maximum number of terms of a generated linear combination
+    pub max_terms: usize,
 }
 
 impl GenCfg {
     pub fn small() -> GenCfg {
-        GenCfg { max_ops1: 14, max_closures: 3, max_ops2: 8, max_commits: 4, big_gates: 0 }
+        GenCfg { max_ops1: 14, max_closures: 3, max_ops2: 8, max_commits: 4, big_gates: 0, max_terms: 4 }
     }
 }
 
@@ -447,7 +449,10 @@ pub fn gen_program(ch: &mut Choices, curve: Curve, cfg: &GenCfg) -> Program {
     let mut k1 = gen_kinds(ch, n_ops1, profile, false, &mut commits_left);
     let n_closures = match profile {
         2 => 1 + ch.below(cfg.max_closures.max(1)),
-        _ => ch.weighted(&[45, 30, 15, 10]).min(cfg.max_closures),
+        _ => {
+            let c = ch.weighted(&[45, 30, 15, 10]);
+            if c == 3 && cfg.max_closures > 3 { 3 + ch.below(cfg.max_closures - 2) } else { c.min(cfg.max_closures) }
+        }
     };
     let mut bodies: Vec<Vec<Kind>> = (0..n_closures)
         .map(|_| {
@@ -556,12 +561,12 @@ pub fn gen_program(ch: &mut Choices, curve: Curve, cfg: &GenCfg) -> Program {
                 Op::AllocMul { l, r }
             }
             Kind::Mul => {
-                let left = gen_lc(ch, f, 3);
-                let right = gen_lc(ch, f, 3);
+                let left = gen_lc(ch, f, cfg.max_terms.saturating_sub(1).max(1));
+                let right = gen_lc(ch, f, cfg.max_terms.saturating_sub(1).max(1));
                 f.new_gate(false);
                 Op::Mul { left, right }
             }
-            Kind::Constrain => Op::Constrain { lc: gen_lc(ch, f, 4), err: None, base: None },
+            Kind::Constrain => Op::Constrain { lc: gen_lc(ch, f, cfg.max_terms), err: None, base: None },
             Kind::TData => {
                 let l = ch.below(ULABELS.len()) as u8;
                 let n = ch.below(9);
